@@ -71,6 +71,26 @@ def run(repo: Repo, chk: Check) -> None:
         chk.ob('R-CONSTRUCT', q, not bad and n_ok > 0, f'{desc}: every stack slot has the reference type', loc, {'paths': n_ok, 'mismatches': bad[:3]},
                what=f'{desc}: stack slot {bad[0]["slot"] if bad else "?"} has type {bad[0]["type"] if bad else "?"}, the typing rules give {bad[0]["expected"] if bad else "?"}'
                if bad else f'{desc}: no path agrees with the reference at the value level (see C01)')
+        # the same case with two foreign items in the protected prefix (inside DIP 2): same types slot by slot, prefix untouched
+        q2, got2, _ = run_case(repo, prim, args, stack, unroll=5 if thorough else 3, protect=2)
+        bad2 = []
+        n2 = 0
+        for o in got2:
+            if o['kind'] != 'stack':
+                continue
+            k = repr(canon(([v[0] for v in o['stack']], o['decisions'])))
+            if k not in want_by or not o.get('prefix_ok'):
+                continue  # value-level disagreement / prefix touched: C01's subject
+            tys = [v[1] for v in o['stack']]
+            if tys == want_by[k]:
+                n2 += 1
+            else:
+                i = next(j for j, (a, b) in enumerate(zip(tys, want_by[k])) if a != b)
+                bad2.append({'slot': i, 'type': tstr(tys[i]), 'expected': tstr(want_by[k][i])})
+        chk.ob('R-CONSTRUCT', q, not bad2 and n2 > 0, f'{desc}: every stack slot has the reference type inside DIP 2', loc, {'paths': n2, 'mismatches': bad2[:3]},
+               what=f'{desc} inside DIP 2: stack slot {bad2[0]["slot"] if bad2 else "?"} has type {bad2[0]["type"] if bad2 else "?"}, the typing rules give '
+                    f'{bad2[0]["expected"] if bad2 else "?"}' if bad2 else f'{desc} inside DIP 2: no path agrees with the reference at the value level (the instruction '
+                    'reaches into the protected prefix, so the slots hold values of foreign types; see C01)')
     chk.minimum('structural cases', nc, 130)
 
     # ---- 2 result types per overload --------------------------------------------------------------------------------------------------------
